@@ -4,13 +4,28 @@ import re
 # A pattern to match the word "through" or equivalent symbol or
 # abbreviation. (Embedded into other regex patterns -- not to be used on
 # its own.)
+#
+# NOTE: If the abbreviation is followed by a period, the period belongs to
+# it -- i.e. `(?:\.|(?!\.))` rather than `\.?`. (A period is also an
+# intervener in its own right, so with an optional period, every
+# 'thru.' in a list could be read in two ways, and a list that fails to
+# match -- e.g. 'Sec 1 thru. thru. thru. [...]' -- would take
+# exponential time to rule out.)
 through_regex = re.compile(
-    r'([\-–—]|th[rough]{3,6}\.?|thru\.?|to)', re.IGNORECASE)
+    r'([\-–—]|th[rough]{3,6}(?:\.|(?!\.))|thru(?:\.|(?!\.))|to)', re.IGNORECASE)
 
 
 # A pattern to be embedded within patterns to match elided lists.
 # For example, for matching multisec:  "Sections 1 - 3, and 5 - 7"
 # ... or multi-lots:  "Lots 1 - 3".
+#
+# NOTE: This matches the whitespace BEFORE the intervener, but not the
+# whitespace after it. A pattern that embeds this one (repeated) must
+# follow it with `\s*`. (If both the leading and the trailing whitespace
+# were matched here, a run of whitespace between two repeated
+# interveners could be split between them in many ways, and a long list
+# that fails to match -- e.g. a row of dot leaders after a section
+# number -- would take exponential time to rule out.)
 intervener_regex = re.compile(
     fr"""
     (?P<intervener>
@@ -23,7 +38,6 @@ intervener_regex = re.compile(
         |
         (?P<and>and|&)
     )
-    \s*
     )
     """, re.IGNORECASE | re.VERBOSE)
 
